@@ -208,6 +208,9 @@ class World:
                     out.append(S.len_l(y) >= 0)
                     out.append(S.is_nil(x) == (S.len_l(x) == 0))
                     out.append(S.is_nil(y) == (S.len_l(y) == 0))
+                    # Lean: head_append'' / nil_append''
+                    out.append(z3.Implies(S.is_cons(x), S.head(t) == S.head(x)))
+                    out.append(z3.Implies(S.is_nil(x), t == y))
                     if z3.is_app(x) and x.decl().name() == "concat":
                         out.append(t == S.concat(x.arg(0), S.concat(x.arg(1), y)))
                     if z3.is_app(y) and y.decl().name() == "nil":
@@ -1667,6 +1670,9 @@ class Exec:
                                  f"({v.origin or 'unknown origin'})")
 
     def frame_write_obj(self, obj, attr, line):
+        mods = self.contract.get("modifies", [])
+        if "*" in mods or f"self.{attr}" in mods:
+            return          # declared in the contract's frame
         self.oblige_trivial("frame", f"write:{obj.cls}.{attr}", obj.fresh != "no", line)
 
     def st_If(self, s, env):
